@@ -22,6 +22,10 @@ pub struct Family {
     pub thorough_runs: u64,
     /// Counters that must be non-zero in a batch (reach probes that matter to the property).
     pub must_reach: &'static [&'static str],
+    /// Enumerated family: run `i` reads the mixed-radix digits of `i` over these dimensions
+    /// as its first draws (all later draws read 0); the batch enumerates the whole product
+    /// (quick tier: every `quick_stride`-th point of the last dimension... see `enum_runs`).
+    pub enum_dims: Option<fn(&str) -> Vec<u32>>,
 }
 
 pub struct PropertyCheck {
@@ -85,7 +89,7 @@ fn abstract_sample(rec: &RunRecord) -> Value {
         "probes_on_wire": rec.world.wires.len(),
         "responses_generated": rec.world.resps.len(),
         "socket_calls": rec.calls_total,
-        "simulated_ms": (rec.t_end - rec.t_start) / 1_000_000,
+        "simulated_ms": rec.t_end.saturating_sub(rec.t_start) / 1_000_000,
         "faults_fired": rec.world.counters.0.iter().filter(|(k, v)| k.starts_with("fault.") && **v > 0).map(|(k, v)| format!("{k}={v}")).collect::<Vec<_>>(),
     })
 }
@@ -122,6 +126,19 @@ fn summarize(fam: &Family, prop: &str, rec: &RunRecord, want_sample: bool) -> Su
         },
         counters,
     }
+}
+
+/// Mixed-radix digits of `i` over `dims` (first dimension most significant).
+#[must_use]
+pub fn digits(i: u64, dims: &[u32]) -> Vec<u32> {
+    let mut out = vec![0u32; dims.len()];
+    let mut rest = i;
+    for (k, d) in dims.iter().enumerate().rev() {
+        let d = u64::from((*d).max(1));
+        out[k] = (rest % d) as u32;
+        rest /= d;
+    }
+    out
 }
 
 fn sanitize(s: &str) -> String {
@@ -214,7 +231,14 @@ pub fn run_check(pc: &PropertyCheck, tier: &str, batch_seed: u64) -> i32 {
     let mut recheck = 0u64;
     let mut fam_stats: Vec<Value> = Vec::new();
     for (fi, fam) in pc.families.iter().enumerate() {
-        let n = ((if tier == "thorough" { fam.thorough_runs } else { fam.quick_runs }) as f64 * scale).ceil() as u64;
+        let dims: Option<Vec<u32>> = fam.enum_dims.map(|f| f(tier));
+        if dims.as_ref().is_some_and(Vec::is_empty) {
+            continue; // not part of this tier
+        }
+        let n = match &dims {
+            Some(d) => d.iter().map(|x| u64::from(*x)).product::<u64>(),
+            None => ((if tier == "thorough" { fam.thorough_runs } else { fam.quick_runs }) as f64 * scale).ceil() as u64,
+        };
         let stop = AtomicBool::new(false);
         let fam_start = std::time::Instant::now();
         let mut fam_counters = Counters::default();
@@ -225,8 +249,11 @@ pub fn run_check(pc: &PropertyCheck, tier: &str, batch_seed: u64) -> i32 {
             pool::workers(),
             64,
             |i| {
-                let seed = simcore::run_seed(batch_seed, pc.id, fi as u32, i);
-                let rec = execute(fam, Tape::from_seed(seed));
+                let seed = if dims.is_some() { i } else { simcore::run_seed(batch_seed, pc.id, fi as u32, i) };
+                let rec = match &dims {
+                    Some(d) => execute(fam, Tape::from_values(digits(i, d))),
+                    None => execute(fam, Tape::from_seed(seed)),
+                };
                 let s = summarize(fam, pc.id, &rec, i < 2);
                 // permanent determinism guard: re-execute a sample from its recorded tape
                 let again = if i % recheck_every == 0 {
@@ -307,7 +334,10 @@ pub fn run_check(pc: &PropertyCheck, tier: &str, batch_seed: u64) -> i32 {
     let mut replays: Vec<String> = Vec::new();
     for (sig, fi, seed, detail, count) in &new_violations {
         let fam = &pc.families[*fi];
-        let original = execute(fam, Tape::from_seed(*seed)).tape_record;
+        let original = match fam.enum_dims {
+            Some(f) => execute(fam, Tape::from_values(digits(*seed, &f(tier)))).tape_record,
+            None => execute(fam, Tape::from_seed(*seed)).tape_record,
+        };
         let (small, used) = simcore::shrink::shrink_timed(&original, sig, 600, std::time::Duration::from_secs(15), |t| replay_signature(fam, pc.id, t, Some(sig)));
         match write_replay(pc.id, *fi, fam, *seed, sig, &small, used, original.len()) {
             Ok(path) => {
